@@ -28,6 +28,7 @@ class UnmanagedBSE(ManagedBSE):
         s.W = World(prog, ManagedEnv(env))
         s.M = s.W.M
         s.M.task_mode = not c['thread_mode']
+        s.M.fine_points = bool(c.get('fine'))
         s.tasks = list(c.get('task_names') or [f'T{i + 1}' for i in range(c['tasks'])])
         s.nprobes = 0; s.susp = {}
         s.U = lambda suf: s.W.find(suf, 'src/unmanaged/mod.rs')
@@ -94,7 +95,7 @@ class UnmanagedBSE(ManagedBSE):
         if st.gget('pool') is None: return []
         acts = []
         for t in s.tasks + ['C']:
-            if st.threads[t].stack: acts.append(('step', t))
+            if st.threads[t].stack and not s.blocked(st, t): acts.append(('step', t))
         nadds = sum(st.threads[t].local['adds'] for t in s.tasks)
         for t in s.tasks:
             th = st.threads[t]; L = th.local
@@ -271,6 +272,7 @@ class UnmanagedBSE(ManagedBSE):
 
     def observe(s, st):
         if st.gget('pool') is None: return None, None
+        if s.any_lock_held(st): return 'panic', 'panic'
         sc = st.clone(); r = s.W.call(sc, 'S', s.U('::status'), [Ref(sc.gget('pool'))])
         sc = st.clone(); r2 = s.W.call(sc, 'S', s.U('::verif_snapshot'), [Ref(sc.gget('pool'))])
         if r[0][1][0] != 'ok' or r2[0][1][0] != 'ok': return 'panic', 'panic'
